@@ -72,11 +72,9 @@ def html_escape(string):
 # ------------------[ thread safe props] -------------------
 def ts_props(*props, store_name=None):
     def wrapper(cls):
-        local_store = None
         cls_init = cls.__init__
 
         def init_wrapper(self, *a, **kw):
-            nonlocal local_store
             local_store = getattr(self, store_name, None)
             if local_store is None:
                 local_store = threading.local()
@@ -86,13 +84,13 @@ def ts_props(*props, store_name=None):
 
         def make_prop(k):
             def fget(s):
-                return getattr(local_store, k)
+                return getattr(getattr(s, store_name), k)
 
             def fset(s, v):
-                return setattr(local_store, k, v)
+                return setattr(getattr(s, store_name), k, v)
 
             def fdel(s):
-                return delattr(local_store, k)
+                return delattr(getattr(s, store_name), k)
             doc = 'Local property: %s' % k
             return property(fget, fset, fdel, doc)
 
